@@ -86,7 +86,7 @@ def handleSample (rest : List String) : String :=
     match toposort edges with
     | none => s!"raise noOrder | {candS} | {cmS}"
     | some order =>
-      let P : Params Rat := ⟨nNodes, edges, order, minLine, mp⟩
+      let P : Params Rat := mkParams nNodes edges order minLine mp
       let ordS := "order " ++ natsStr order
       match groupSample fixed lsa P ch scores with
       | .error e => s!"raise {errStr e} | {ordS} | {candS} | {cmS}"
@@ -109,7 +109,7 @@ def handleAssign (rest : List String) : String :=
   | some (nNodes, mp, groups) =>
     let cs : List (Conn Rat) := groups.flatMap fun g =>
       g.2.2.map fun m => ⟨(g.1, m.1), (g.2.1, m.2.1), m.2.2⟩
-    let a := assignConnections (pairs cs) mp nNodes
+    let a := assignConnections (pairs cs) (effMinPeaks mp nNodes) nNodes
     let casesS := "cases " ++ " ".intercalate ((caseTrace (pairs cs)).map caseStr)
     match makeInstances cs a nNodes with
     | .error e => s!"{asgStr a} | {casesS} | raise {errStr e}"
